@@ -6,7 +6,7 @@ class Syntax(Engine):
     name = "syntax"
     SECT = {
         "C16": ["LEX"],
-        "C08": ["LEX", "PARSE"],
+        "C08": ["LEX", "PARSE", "BPARSE"],
         "C07": ["PARSE", "PRINT", "REPARSE"],
         "C11": ["PARSE", "PRINT", "REPARSE", "REPRINT"],
         "C15": ["PARSE", "PRINT", "REPARSE"],
